@@ -115,7 +115,7 @@ class C12(PropBase):
         rng = Rng(seed)
         cases = []
         dist = {"exhaustive": 0, "random": 0, "wake_driven": 0, "sched_len_exhaustive": 0}
-        L = 7 if tier == "quick" else 10
+        L = 8 if tier == "quick" else 11
         dist["sched_len_exhaustive"] = L
         lookups = [[a] for a in (0, 1)] + [[a, b] for a in (0, 1) for b in (0, 1)]
         scripts = [((s0, o0), (s1, o1)) for s0 in (0, 1) for s1 in (0, 1)
